@@ -240,8 +240,11 @@ impl Task {
 
         instrument!(compio_log::Level::TRACE,"Task::cancel", id = ?header.id, drop_result);
 
-        self.schedule();
+        // Set the flag before scheduling: if the task were scheduled first, the executor
+        // could pick it up, still see it as not cancelled, poll it and park it again, and
+        // nothing would ever run it once more to drop the future.
         let state = header.state.set_cancelled();
+        self.schedule();
         if drop_result && state.has_result() {
             header.state.set_has_result::<Strong, false>();
             unsafe { (header.vtable.drop_future)(self.0, true) }
